@@ -300,6 +300,27 @@ func scenarios(quick bool) (out []scenario) {
 	return out
 }
 
+// neutralOps do not change whether blocked.test (in the enabled block list) is
+// blocked for the client of request R1.
+var neutralOps = map[string]bool{
+	"clients-list": true, "clients-add": true, "clients-delete-other-client": true, "access-set": true,
+	"filtering-add-url": true, "filtering-refresh": true, "rewrite-add": true, "rewrite-delete": true, "rewrite-update": true,
+	"blocked-services-update": true, "blocked-services-update-without-schedule": true, "safesearch-settings": true,
+	"querylog-config": true, "querylog-clear": true, "querylog-read": true, "stats-config": true, "stats-reset": true, "stats-read": true,
+	"dns-config": true, "dhcp-add-static-lease": true, "dhcp-remove-static-lease": true, "dhcp-update-static-lease": true, "dhcp-status": true,
+	"bg-filter-refresh": true, "bg-stats-flush-hour-rollover": true, "bg-querylog-flush": true, "bg-querylog-rotate": true,
+	"bg-address-update-rdns-whois": true, "bg-dhcp-runtime-update": true, "bg-dhcp-client-handshake": true,
+}
+
+func neutralForBlockedName(ops []int) bool {
+	for _, oi := range ops {
+		if !neutralOps[operations[oi].name] {
+			return false
+		}
+	}
+	return len(ops) > 0
+}
+
 // ---- phases ---------------------------------------------------------------------------
 
 func phaseRace(c *lib.Ctx) {
@@ -421,6 +442,7 @@ func mkBody(c *lib.Ctx, sc scenario) func() vsync.Body {
 				}
 			}
 		}
+		a.up.Reset()
 		var resp, req *dns.Msg
 		var rerr error
 		opMsgs := make([]string, len(sc.ops))
@@ -446,6 +468,16 @@ func mkBody(c *lib.Ctx, sc scenario) func() vsync.Body {
 				for _, m := range opMsgs {
 					if m != "" {
 						return "operation-failed: " + m
+					}
+				}
+				if sc.req == 0 && neutralForBlockedName(sc.ops) {
+					// The name is blocked before and after every one of these
+					// operations, so it is blocked in every serial order: the request
+					// must not have reached the upstream, whatever the interleaving.
+					for _, q := range a.up.Reset() {
+						if strings.HasPrefix(strings.ToLower(q), "blocked.test.") {
+							return "blocked-name-forwarded-during-reconfiguration: the request for blocked.test (blocked before and after " + opNames(sc) + ") was sent to the upstream"
+						}
 					}
 				}
 				if m := clientIndexConsistent(a.clients); m != "" {
